@@ -248,7 +248,7 @@ func runC13(c *fw.Ctx) {
 					}
 				}
 			case 3:
-				n := c.Pick(2500, 40000)
+				n := c.Pick(6000, 100000)
 				c0, c1, c2 := candidates(0), candidates(1), candidates(2)
 				if len(c0)*len(c1)*len(c2) <= n {
 					for _, a := range c0 {
@@ -294,7 +294,7 @@ func runC13(c *fw.Ctx) {
 		}
 	}
 	// (b) random pipelines: each stage consumes earlier results
-	for i := 0; i < c.PerShard(c.Pick(20000, 1000000)); i++ {
+	for i := 0; i < c.PerShard(c.Pick(400000, 12000000)); i++ {
 		c13Pipeline(c, base, r, pool, fns, i)
 	}
 }
